@@ -153,7 +153,8 @@ class SiteTracer(Tracer):
         return None
 
     def site(self, kind, n, detail, vals):
-        self.sites.append({"kind": kind, "sp": n.get("sp"), "se": n.get("se"), "detail": detail, "vals": vals,
+        from .trace import next_seq
+        self.sites.append({"seq": next_seq(), "kind": kind, "sp": n.get("sp"), "se": n.get("se"), "detail": detail, "vals": vals,
                            "loops": list(self.loops), "guards": list(self.guards), "node": n,
                            "fn": self.fn_stack[-1] if self.fn_stack else None})
 
